@@ -239,6 +239,15 @@ func (rm *remote) genFiller(c simkit.Chooser) *item {
 	default:
 		it := &item{kind: itUnknown}
 		it.raw = c.Bytes(simkit.Range(c, 0, 40, "unk-n"), "unk")
+		if rm.s != nil && rm.s.k.chunkMode != 1 && rm.s.k.chunkMode != 2 && c.Bool(150, "unk-big") {
+			// a payload the peer has to skip in several reads: exactly at,
+			// just below and just above the size of one skip buffer
+			n := []int{10239, 10240, 10241, 20480, 20481}[c.Intn(5, "unk-big-n")]
+			big := make([]byte, n)
+			copy(big, it.raw)
+			it.raw = big
+			rm.s.r.Probe("unknown-message-with-large-payload")
+		}
 		return it
 	}
 }
